@@ -3,6 +3,7 @@ package dkgsim
 import (
 	"fmt"
 
+	crypto "github.com/onflow/crypto"
 
 	"verifsim/choice"
 	"verifsim/curve"
@@ -225,6 +226,10 @@ func chaosPass(c *choice.Src, o engine.Opt, out *engine.Out, skip bool) *chaosWo
 	w := &World{c: c, o: o, out: out, prop: o.Property}
 	cw := &chaosWorld{World: w, skip: skip}
 	w.proto = c.Choose(3, "proto")
+	if o.Property == "C09" && c.Bool(1, 32, "boundary-config") {
+		boundaryConfig(cw)
+		return cw
+	}
 	w.n = 2 + c.Choose(4, "n")
 	w.t = 1 + c.Choose(w.n-1, "t")
 	w.dealer = c.Choose(w.n, "dealer")
@@ -489,4 +494,99 @@ func (cw *chaosWorld) payload(c *choice.Src, raw bool) []byte {
 		d[0] = byte(c.Choose(5, "payload.tag"))
 		return d
 	}
+}
+
+// boundaryConfig: one instance built with a group size, threshold and indices at and beyond
+// the documented limits, then driven through a short life (Start as dealer, a few handler
+// calls from the highest indices, the timers, End). The constructor may refuse (that is the
+// documented outcome for sizes outside [DKGMinSize, DKGMaxSize]); whatever it accepts must
+// then survive: only the no-panic oracle of C09 applies here.
+func boundaryConfig(cw *chaosWorld) {
+	w := cw.World
+	c := w.c
+	sizes := []int{254, 255, 256, 253, 257, 2, 1, 0, -1, 1 << 16}
+	size := sizes[c.Weighted([]int{4, 4, 2, 1, 1, 1, 1, 1, 1, 1}, "bc.size")]
+	ths := []int{1, size - 1, (size - 1) / 2, size, 0, size - 2}
+	w.n = size
+	w.t = ths[c.Weighted([]int{3, 3, 3, 1, 1, 1}, "bc.t")]
+	idxs := []int{0, size - 1, size, -1, size / 2}
+	me := idxs[c.Weighted([]int{3, 3, 1, 1, 2}, "bc.me")]
+	w.dealer = me
+	if c.Bool(1, 3, "bc.otherdealer") {
+		w.dealer = idxs[c.Choose(len(idxs), "bc.dealer")]
+	}
+	w.byz = map[int]*Byz{}
+	w.out.Params["proto"], w.out.Params["n"], w.out.Params["t"], w.out.Params["dealer"] = protoName[w.proto], w.n, w.t, w.dealer
+	w.out.Params["boundary_config"] = true
+	w.fault("config.boundary_size_threshold_index")
+	w.fp = append(w.fp, fmt.Sprint("bc", w.proto, size, w.t, me, w.dealer))
+	n := &Node{idx: me, w: w, disq: map[int]bool{}, forced: map[int]bool{}}
+	var cerr error
+	// the instance talks to a processor that swallows everything: nobody else exists in this world
+	proc := &capture{shares: map[int][]byte{}}
+	if _, p := w.call(n, "constructor", func() error {
+		switch w.proto {
+		case FVSS:
+			n.st, cerr = crypto.NewFeldmanVSS(w.n, w.t, n.idx, proc, w.dealer)
+		case QUAL:
+			n.st, cerr = crypto.NewFeldmanVSSQual(w.n, w.t, n.idx, proc, w.dealer)
+		default:
+			n.st, cerr = crypto.NewJointFeldman(w.n, w.t, n.idx, proc)
+		}
+		return cerr
+	}); p {
+		return
+	}
+	w.ev("boundary config %s size=%d t=%d me=%d dealer=%d: constructor -> %s", protoName[w.proto], size, w.t, me, w.dealer, errClass(cerr))
+	if cerr != nil || n.st == nil {
+		w.out.Probes["boundary_config_refused"]++
+		return
+	}
+	w.out.Probes["boundary_config_accepted"]++
+	seed := c.Sub("bc.seed").Bytes(32)
+	step := func(what string, f func() error) bool {
+		err, p := w.call(n, what, f)
+		w.ev("  %s -> %s", what, errClass(err))
+		w.out.SimTime["api_calls"]++
+		return !p
+	}
+	if !step("Start", func() error { return n.st.Start(seed) }) {
+		return
+	}
+	w.pending = nil // what the instance sent is not delivered to anybody
+	origs := []int{size - 1, size - 2, 0, size, 255, 254, 128, 127}
+	for i := 0; i < 6; i++ {
+		orig := origs[c.Choose(len(origs), "bc.orig")]
+		var data []byte
+		switch c.Choose(4, "bc.msg") {
+		case 0:
+			data = append([]byte{tagShare}, curve.ScalarRandom(c.Sub("bc.sc"))...)
+		case 1:
+			data = []byte{tagComplaint, byte(c.Choose(256, "bc.complainee"))}
+		case 2:
+			data = append([]byte{tagAnswer, byte(c.Choose(256, "bc.complainer"))}, curve.ScalarRandom(c.Sub("bc.sc2"))...)
+		default:
+			data = []byte{tagVec}
+		}
+		if c.Bool(1, 2, "bc.private") {
+			if !step(fmt.Sprintf("HandlePrivateMsg(orig=%d, tag %d)", orig, data[0]), func() error { return n.st.HandlePrivateMsg(orig, data) }) {
+				return
+			}
+		} else if !step(fmt.Sprintf("HandleBroadcastMsg(orig=%d, tag %d)", orig, data[0]), func() error { return n.st.HandleBroadcastMsg(orig, data) }) {
+			return
+		}
+		if i == 2 {
+			if !step("NextTimeout", n.st.NextTimeout) {
+				return
+			}
+		}
+	}
+	fd := origs[c.Choose(len(origs), "bc.force")]
+	if !step(fmt.Sprintf("ForceDisqualify(%d)", fd), func() error { return n.st.ForceDisqualify(fd) }) {
+		return
+	}
+	if !step("NextTimeout", n.st.NextTimeout) {
+		return
+	}
+	step("End", func() error { _, _, _, err := n.st.End(); return err })
 }
